@@ -137,6 +137,10 @@ H("parse_qlt", src="h_large_tlv.c", props=_LT, enforce=["parseQueryLargeTlv"], u
   unwindset={"v_build_state.0": 50, "parseQueryLargeTlv.0": 34, "v_hwid_size.0": 34, "h_parse_qlt.0": 66, "h_parse_qlt.1": 66, "v_give_blob.0": 50, "lltd_port_get_hw_id.0": 66},
   defines=["V_MTU_FIXED=576", "V_LIST_MAX=3"], must_reach=["end", "icon", "fname", "hwid", "unknown", "seq0", "tx"],
   bounded="MTU fixed to 576; icon / friendly name of at most 48 bytes in the platform model")
+H("parse_qlt_bigicon", src="h_large_tlv.c", fn="h_parse_qlt", props=_LT, enforce=["parseQueryLargeTlv"], replace=["sendLargeTlvResponse"], unwind=8,
+  unwindset={"v_build_state.0": 50, "parseQueryLargeTlv.0": 34, "v_hwid_size.0": 34, "h_parse_qlt.0": 66, "h_parse_qlt.1": 66, "v_give_blob.0": 50, "lltd_port_get_hw_id.0": 66},
+  defines=["V_MTU_FIXED=576", "V_LIST_MAX=3", "V_ICON_BIG=1"], no_native=True, must_reach=["end", "icon", "bigicon", "fname", "hwid", "unknown", "seq0"],
+  bounded="MTU fixed to 576; icon of ANY size 0..65535 with contents not modelled (caching / ownership logic and the arguments handed to sendLargeTlvResponse, which is replaced by its proved contract)")
 H("c08_reassembly", src="h_large_tlv.c", props=["C08"], unwind=8, defines=["V_LIST_MAX=3"])
 
 # ---------------------------------------------------------------- lltdBlock.c: dispatcher
@@ -251,7 +255,7 @@ PROPS = {
     "C03": {"harnesses": _HELLO_ALL + ["wire_headers", "parse_frame"]},
     "C05": {"harnesses": ["parse_frame", "parse_emit", "parse_query", "parse_qlt"] + _H1,
             "explanation": "parseFrame is proved with the handlers replaced by their contracts; the mapper clauses of those contracts (C05.emit-state, C05.query-mapper, C05.qlt-state, C05.hello-state) are proved on the handlers here"},
-    "C08": {"harnesses": ["send_ltr", "parse_qlt", "c08_reassembly"]},
+    "C08": {"harnesses": ["send_ltr", "parse_qlt", "parse_qlt_bigicon", "c08_reassembly"]},
     "C07": {"harnesses": ["parse_probe", "parse_query", "parse_query_mtu60", "parse_query_mtu72", "parse_query_mtu80", "parse_query_mtu93", "parse_query_symmtu"]},
     "C06": {"harnesses": ["send_probe", "parse_emit", "parse_emit_strict", "parse_frame"] + _EMIT_SMALL,
             "explanation": "sendProbeMsg and parseEmit against their contracts; the exact-count clause on small-frame instances where a maximum-size Emit is reachable; the dispatcher clause C06.emit-dispatched (parseFrame hands the active mapper's Emit to parseEmit)"},
